@@ -115,6 +115,37 @@ CHECKS = {
    design_ref='DESIGN.md par.5 C04',
    note='lines are symbolic choices among concrete shapes; gpg\'s own notion of the cleartext is '
         'behind a binary; silent cases of the statement accept both behaviours'),
+ 'C08': dict(
+   text='On symbolic strings: process_path(encoded_path(p)) == p for any code point in each of '
+        'the listed neighbour contexts; the encoded path is one token free of blanks/controls; '
+        'from_list(to_list(e)) == e for every tag with a free code point in the path; '
+        'load(dump(entries)) with exact one-line/single-space shape; the canonical fixed point '
+        'for every accepted \\x/\\u/\\U escape (hex digits free, int(.,16) modelled by digit '
+        'arithmetic).',
+   design_ref='DESIGN.md par.5 C08',
+   note='one free code point per path (escaper is a per-character substitution); Python\'s '
+        'str/int and strftime/strptime, and the codecs, are C code; two engine limitations '
+        'listed in DESIGN.md'),
+ 'C09': dict(
+   text='Every entry class\'s from_list on field lists of symbolic length with a free code point '
+        'in the path and checksum value, checksum names by symbolic choice, size/timestamp via '
+        'contract stubs: only ManifestSyntaxError may escape, every malformed shape listed in '
+        'the statement is rejected, accepted entries are well-formed; all escape forms over '
+        'free digits incl. values above 0x10FFFF; tag dispatch at line level through the real '
+        'load().',
+   design_ref='DESIGN.md par.5 C09',
+   note='per-line decomposition; which digit strings int()/strptime accept is Python\'s '
+        'business (contract stubs)'),
+ 'C14': dict(
+   text='The real dump() for every sign option x loaded state x key id x backend verdict x '
+        'entries (signs iff asked or loaded signed, backend receives exactly the plain dump, '
+        'failure propagates, nothing written); the clear-sign wrapper for every exit status; '
+        'update+forced save on a three-level model tree for every sign option, top-level name, '
+        'watermark (renames) and prior signed flags: only the top-level Manifest is ever asked '
+        'to be signed and ends up signed iff required.',
+   design_ref='DESIGN.md par.5 C14',
+   note='gpg --clearsign is a binary (its exit status and output stand in); signed flag per '
+        'model Manifest node'),
 }
 
 NOT_APPLICABLE = {
